@@ -210,4 +210,44 @@ theorem spelling_independent_aux (L : Lawful o G) {H : TagHash} (sec h : Bytes) 
   unfold outKey
   rw [hcx, hcy]
 
+/-! ## every leaf version -/
+
+/-- what `input_script_sig` answers on a single-leaf tree, whatever the leaf version -/
+theorem iss_leaf {H : TagHash} (sec : Bytes) (v : Nat) (s s' c : Bytes)
+    (h : inputScriptSig o H (some sec) (.leaf v s) 0 = .ok (s', c)) :
+    s' = s ∧ ∃ par, par < 2 ∧ c = controlBlock par (v &&& LEAF_MASK) (xOnly sec) [] := by
+  unfold inputScriptSig at h
+  cases hk : outputPubkeyAndInternalKey o H (some sec) (some (.leaf v s)) with
+  | error e => rw [hk] at h; cases h
+  | ok r =>
+    obtain ⟨q, par, xb⟩ := r
+    rw [hk] at h
+    simp only [leaves_leaf] at h
+    have hx : xb = xOnly sec ∧ par < 2 := by
+      unfold outputPubkeyAndInternalKey at hk
+      simp only [Option.getD_some] at hk
+      cases hq : tweakedPubkey o H sec (root H (.leaf v s)) with
+      | error e => rw [hq] at hk; cases hk
+      | ok r2 =>
+        rw [hq] at hk
+        have e := Except.ok.inj hk
+        have e1 : r2.2 = par := (Prod.mk.inj (Prod.mk.inj e).2).1
+        have e2 : xOnly sec = xb := (Prod.mk.inj (Prod.mk.inj e).2).2
+        refine ⟨e2.symm, ?_⟩
+        unfold tweakedPubkey at hq
+        cases ht : tapTweak o H (xOnly sec) (root H (.leaf v s)) with
+        | error e => rw [ht] at hq; cases hq
+        | ok t =>
+          cases hP : pointFromOctets o sec with
+          | error e => rw [ht, hP] at hq; cases hq
+          | ok P =>
+            rw [ht, hP] at hq
+            have := Except.ok.inj hq
+            rw [← e1, ← this]
+            show (o.y _ % 2).toNat < 2
+            omega
+    simp at h
+    obtain ⟨h1, h2⟩ := h
+    exact ⟨h1.symm, par, hx.2, by rw [← h2, hx.1]⟩
+
 end Btc.Taproot
